@@ -67,6 +67,15 @@ def r17_1(ctx):
             if helper is not None:
                 seen_rev = scan(helper, helper.body(), seen_rev, depth + 1)
                 continue
+            if isinstance(s, ast.Expr) and isinstance(s.value, ast.Call) and isinstance(s.value.func, ast.Name) and depth < 3:
+                # a nested def of this function that performs the reversal: walked in place, too
+                nd = next((d for d in ast.walk(func.node) if isinstance(d, ast.FunctionDef) and d is not func.node and d.name == s.value.func.id), None)
+                if nd is not None and any(is_rev(n) for n in ast.walk(nd)):
+                    body = [b for b in nd.body if not (isinstance(b, ast.Expr) and isinstance(b.value, ast.Constant))]
+                    seen_rev = scan(func, body, seen_rev, depth + 1)
+                    continue
+            if isinstance(s, ast.FunctionDef):
+                continue   # defining a nested helper executes nothing
             if seen_rev:
                 calls = [n for n in ast.walk(s) if isinstance(n, ast.Call) and not (isinstance(n.func, ast.Name) and n.func.id in ("set", "list", "dict"))]
                 ctx.instance(construct(f, "pre-try-stmt"))
@@ -141,7 +150,15 @@ def r17_6(ctx):
     def reaches_rev(stmt):
         if any(isinstance(n, ast.Call) and isinstance(n.func, ast.Attribute) and n.func.attr == "reverse_dependencies" for n in ast.walk(stmt)):
             return True
-        return any(g.name == "reverse_dependencies" for g in ctx.eff.reachable_from_stmts(f, [stmt], precise=True))
+        if any(g.name == "reverse_dependencies" for g in ctx.eff.reachable_from_stmts(f, [stmt], precise=True)):
+            return True
+        # a call of a nested def of backward_simulate that does the reversal
+        for c in ast.walk(stmt):
+            if isinstance(c, ast.Call) and isinstance(c.func, ast.Name):
+                nd = next((d for d in ast.walk(f.node) if isinstance(d, ast.FunctionDef) and d is not f.node and d.name == c.func.id), None)
+                if nd is not None and any(isinstance(n, ast.Call) and isinstance(n.func, ast.Attribute) and n.func.attr == "reverse_dependencies" for n in ast.walk(nd)):
+                    return True
+        return False
     idx = [i for i, st in enumerate(fin) if reaches_rev(st)]
     ctx.require(idx, "no restoring call in the finally block")
     before = fin[: idx[0]]
